@@ -580,6 +580,18 @@ def explicit(tier, seed):
                                       "tickets": tickets}
                     yield case
 
+    # ... and an unchanged policy with asymmetric record_size_limit values:
+    # the abbreviated handshake has its own copy of the extension code
+    for v in vers:
+        for cl, sl in ((8192, 1024), (700, 4096), (2 ** 14 + 1, 64)):
+            for tickets in (False, True):
+                case = base(v, "rsa")
+                case["c"]["record_size_limit"] = cl
+                case["s"]["record_size_limit"] = sl
+                case["second"] = {"how": "same", "who": "s",
+                                  "tickets": tickets}
+                yield case
+
 
 @st.composite
 def with_second(draw):
